@@ -17,7 +17,7 @@ S = sys.argv[1]
 evs = [json.loads(x) for x in open(S + "/t0.ndjson")]
 for i, e in enumerate(evs, 1):
     if "ph" in e:
-        e.update(kprev=0, hprev=0, hkeep=0, dprev=0, sig=0, gs=0, bprev=0, pc=[], rel=0, mt=0)
+        e.update(kprev=0, rprev=0, hprev=0, hkeep=0, dprev=0, sig=0, gs=0, bprev=0, pc=[], rel=0, mt=0)
 evs[2]["kprev"] = 2
 json.dump
 open(S + "/good.ndjson", "w").write("\n".join(json.dumps(e) for e in evs) + "\n")
